@@ -451,10 +451,7 @@ pub fn execute(prop: &str, sc: &HostileScript, opts: &ExecOpts) -> Outcome {
             fold(&mut out, prop, &r);
             match &r.value {
                 None => out.violate(prop, "scenario-timeout", &format!("hostile-peer:{:?}", sc.role).to_lowercase(), "the hostile exchange did not finish within 600 virtual seconds".into()),
-                Some(Err(e)) => {
-                    out.inconclusive = true;
-                    out.log.push(format!("setup error: {e:#}"));
-                }
+                Some(Err(e)) => setup_failed(&mut out, prop, "hostile-peer", &sc.net, e),
                 Some(Ok(rep)) => {
                     for y in &rep.yields {
                         th.bytes(y.as_bytes());
